@@ -8,6 +8,7 @@ package main
 import (
 	"fmt"
 	"math"
+	"strings"
 
 	"github.com/6tail/lunar-go/ShouXingUtil"
 	"github.com/6tail/lunar-go/calendar"
@@ -65,8 +66,48 @@ func runC03(w *W) {
 	}
 	w.R.Notes = append(w.R.Notes, fmt.Sprintf("shard %v: max root residual %.4f arcsec, max R3 offset %.2f min", w.Shard.Ranges, maxRoot, maxR3))
 	// daily term names
+	walkLunar = true
 	sweepDays(w, "C03", func(d *Day, prev *Day) {
 		l := d.L()
+		// objects reached by navigation carry the same term table and give the same lookups as the directly built one:
+		// the sweep's walking object (Next(1) since the start of the range), one backward hop, and a far hop either way
+		{
+			sig := func(x *calendar.Lunar) string {
+				var b strings.Builder
+				for _, t := range termsOf(x) {
+					b.WriteString(t.Key + "@" + t.S.ToYmdHms() + " ")
+				}
+				jq := func(q *calendar.JieQi) string {
+					if q == nil {
+						return "nil"
+					}
+					return q.GetName() + "@" + q.GetSolar().ToYmdHms()
+				}
+				b.WriteString("|" + x.GetJieQi() + "|" + x.GetJie() + "|" + x.GetQi() + "|" + jq(x.GetPrevJieQi()) + "|" + jq(x.GetNextJieQi()) + "|" + jq(x.GetPrevJie()) + "|" + jq(x.GetNextJie()) + "|" + jq(x.GetPrevQi()) + "|" + jq(x.GetNextQi()) + "|" + jq(x.GetCurrentJieQi()))
+				return b.String()
+			}
+			want := sig(l)
+			routes := map[string]*calendar.Lunar{"walking object (Next(1) since the start of the range)": curWalk}
+			far := []int{27, 28, 29, 30, 1, 59}[d.J%6]
+			for _, n := range []int{-1, far, -far} {
+				n := n
+				var o *calendar.Lunar
+				try(func() { o = d.S.NextDay(-n).GetLunar().Next(n) })
+				routes[fmt.Sprintf("object of the day %d days away .Next(%d)", -n, n)] = o
+			}
+			for name, o := range routes {
+				if o == nil || o.GetSolar().ToYmdHms() != d.S.ToYmdHms() {
+					continue
+				}
+				w.R.Transitions++
+				var got string
+				if msg, p := try(func() { got = sig(o) }); p {
+					w.Viol("C03:route:panic:"+d.Ymd, fmt.Sprintf("%s: term lookups panic on the %s: %s", d.Ymd, name, msg), d.Ymd)
+				} else if got != want {
+					w.Viol("C03:route:"+d.Ymd, fmt.Sprintf("%s: term table / lookups differ between the directly built lunar date and the %s: %s", d.Ymd, name, firstDiffWords(strings.ReplaceAll(want, "|", " "), strings.ReplaceAll(got, "|", " "))), d.Ymd)
+				}
+			}
+		}
 		want, wantJie, wantQi := "", "", ""
 		for _, t := range termsOf(l) {
 			if t.J == d.J {
